@@ -232,22 +232,44 @@ class Vocab:
     """vocabulary of one function: how the mesh API / containers it touches are rendered in Lean (the trusted part)"""
 
     def __init__(self, params, ptypes, ctx="", ctxargs="", exprs=(), stmts=(), drop=(), subs=None, methods=None, empties=(),
-                 ret=None, raising=False, returns=(), fuel=None, opens="", fall=None, init_env=None):
+                 ret=None, raising=False, returns=(), fuel=None, opens="", fall=None, init_env=None, consts=None):
         self.params, self.ptypes, self.ctx, self.ctxargs = list(params), list(ptypes), ctx, ctxargs
         self.exprs, self.stmts, self.drop = list(exprs), list(stmts), list(drop)
         self.subs, self.methods, self.empties = subs or {}, methods or {}, list(empties)
         self.ret, self.raising, self.returns, self.fuel = ret, raising, list(returns), fuel
         self.fall, self.init_env = fall, dict(init_env or {})
+        self.iters = {}                      # type -> (lean template of the list iterated, element type): `for x in <local of that type>`
+        self.consts = dict(consts or {})     # parameter (role name) -> Python bool: the function is specialised to that value
+
+
+def _strip_calls(fn, names):
+    """remove the expression statements `<name>(...)` (log calls) at any depth; an emptied block gets `pass`"""
+    if not names: return fn
+    fn = copy.deepcopy(fn)
+
+    class R(ast.NodeTransformer):
+        def generic_visit(self, n):
+            super().generic_visit(n)
+            for f in ("body", "orelse"):
+                b = getattr(n, f, None)
+                if isinstance(b, list) and b and isinstance(b[0], ast.stmt):
+                    nb = [x for x in b if not (isinstance(x, ast.Expr) and isinstance(x.value, ast.Call) and ast.unparse(x.value.func) in names)]
+                    if f == "body" and not nb: nb = [ast.Pass()]
+                    setattr(n, f, nb)
+            return n
+    return ast.fix_missing_locations(R().visit(fn))
 
 
 class Compiler:
     def __init__(self, lean_name, fn, vocab, doc=None):
         self.name, self.v = lean_name, vocab
         self.src_name = fn.name
+        fn = _strip_calls(fn, getattr(vocab, "drop_calls", ()))
         self.fn, self.orig_params, self.renamed = normalise(fn)
         if len(self.orig_params) != len(vocab.params):
             raise TranslateError(f"{fn.name}: expected {len(vocab.params)} parameters ({vocab.params}), found {self.orig_params}")
         self.pmap = {p: f"p{i}" for i, p in enumerate(vocab.params)}
+        self.cvals = {self.pmap[k]: bool(v) for k, v in (vocab.consts or {}).items()}
         self.exprs = [(_pat_expr(p, self.pmap), t, ty, (x[0] if x else False)) for (p, t, ty, *x) in vocab.exprs]
         self.stmts = [(_pat_stmt(p, self.pmap), h) for (p, h) in vocab.stmts]
         self.drop = [_pat_stmt(p, self.pmap) for p in vocab.drop]
@@ -361,6 +383,9 @@ class Compiler:
                 t = self.empties.pop(0)
                 return f"([] : {t})", t
             parts = [self.E(e, env, pre) for e in n.elts]
+            tys = {t for _, t in parts}
+            if len(tys) > 1 and tys <= {"Nat", "Option ?", "Option Nat"}:
+                parts = [((f"some {atom(e)}" if t == "Nat" else e), "Option Nat") for e, t in parts]
             if len({t for _, t in parts}) != 1: raise self.err(f"list literal of mixed types {ast.unparse(n)}")
             return "[" + ", ".join(e for e, _ in parts) + "]", f"List {atom(parts[0][1])}"
         if isinstance(n, ast.IfExp):
@@ -613,6 +638,11 @@ class Compiler:
 
     def if_stmt(self, s, env, nxt, ind, exits, rest):
         body, orelse = strip(s.body), strip(s.orelse)
+        # specialisation: `if <parameter fixed by the vocabulary>:` keeps only the branch taken
+        if isinstance(s.test, ast.Name) and s.test.id in self.cvals:
+            taken = body if self.cvals[s.test.id] else orelse
+            if self.terminates(taken): return self.block(taken, env, exits, ind)
+            return self.block(taken + rest, env, exits, ind)
         # narrowing: `if x is None: <terminating>`  /  `if x is None or y is None: <terminating>`
         tests = s.test.values if (isinstance(s.test, ast.BoolOp) and isinstance(s.test.op, ast.Or)) else [s.test]
         if not orelse and self.terminates(body) and all(
@@ -685,6 +715,8 @@ class Compiler:
         k = self.nloop
         pre = []
         it, tit = self.E(s.iter, env, pre)
+        if tit in self.v.iters:
+            it, tit = self.v.iters[tit][0].format(x=it), f"List {self.v.iters[tit][1]}"
         el = arg_of(tit, "List")
         if el is None: raise self.err(f"`for` over a {tit}: `{self.show(s.iter)}`")
         env_b = dict(env)
@@ -781,7 +813,9 @@ class Compiler:
             pre = []
             e, t = self.E(value, env2, pre)
             want = ret_t
-            if "?" in t and arg_of(want, "Option") is not None: t = want
+            if "?" in t:
+                import re
+                if re.fullmatch(re.escape(t).replace("\\?", ".+?"), want): t = want
             if t != want:
                 if arg_of(want, "Option") == t: e = f"some {atom(e)}"
                 else: raise self.err(f"returns a {t}, expected {want}: `{self.show(value)}`")
